@@ -75,18 +75,22 @@ def veto_never(value):
 def per_call_args(rng, t):
     from vf.spec import Ann, AnyT, Coll, MapT, ObjectT, Prim, Union_, strip
     cons, veto = None, None
-    if rng.random() < 0.12 and not any(isinstance(n, Ann) for n in [t]):
+    if rng.random() < 0.14:
+        from vf.gen_types import ARR_CONS2, NUM_CONS2, OBJ_CONS2, STR_CONS2
         b = strip(t)
         if isinstance(b, Prim) and b.p in ("int", "float"):
-            cons = {"min": 0}
+            cons = dict(rng.choice(NUM_CONS2 + [{"min": 0}]))
         elif isinstance(b, Prim) and b.p == "str":
-            cons = {"min_len": 1}
+            cons = dict(rng.choice(STR_CONS2 + [{"min_len": 1}]))
         elif isinstance(b, Coll) and b.c not in ("set", "absset", "mutset", "frozenset"):
-            cons = {"max_items": 2}
+            cons = dict(rng.choice(ARR_CONS2 + [{"max_items": 2}]))
         elif isinstance(b, (ObjectT, MapT)):
-            cons = {"min_props": 1}
-        if isinstance(t, Ann) or any(isinstance(n, Ann) for n in (t, getattr(t, "t", None)) if n is not None):
+            cons = dict(rng.choice(OBJ_CONS2 + [{"min_props": 1}]))
+        # over an already annotated type the two constraint sets are merged (both apply); only one level below is modelled
+        if isinstance(t, Ann) and (isinstance(t.t, Ann) or isinstance(strip(t), Union_) or isinstance(t.t, AnyT)):
             cons = None
+        if not isinstance(t, Ann) and isinstance(getattr(t, "t", None), Ann):
+            cons = None  # NewType over an annotated type: not modelled
     if rng.random() < 0.1 and not isinstance(strip(t), (ObjectT, Union_)) and not any(isinstance(n, ObjectT) for n in (strip(t),)):
         # (a validator reading no field of an object has no provided dependency and legitimately never runs: C10)
         veto = rng.random() < 0.5
